@@ -209,6 +209,7 @@ def run_case(case):
                 backends['b2'] = Ops(fakes.make_b2(svc, by_id=case['b2_by_id']))
             model = {}
             res_holder['model'] = model
+            res_holder['scratch'] = str(d)
             res_holder['known_names'] = set(case['names'])
             for i, op in enumerate(case['ops']):
                 kind = op['op']
@@ -402,6 +403,18 @@ def _start_reader(backend, name, old, new, holder):
                                                   'msg': f'while {name!r} was being overwritten a concurrent exists() returned False'}
                     return
                 got = backend.download(name)
+                if holder.get('scratch') is not None:
+                    # ... and a streamed download into a real file (whose truncate() also extends, unlike BytesIO's)
+                    tgt = os.path.join(holder['scratch'], 'reader-download.bin')
+                    with open(tgt, 'w+b', buffering=0) as fh:
+                        backend.download_stream(name, fh, 64)
+                    with open(tgt, 'rb') as fh:
+                        got2 = fh.read()
+                    if got2 != old and got2 != new:
+                        holder['reader_violation'] = {'cls': 'replace-not-atomic', 'sig': {'seen': 'mixture', 'via': 'download_stream'},
+                                                      'msg': f'while {name!r} was being overwritten a concurrent download_stream into a file delivered {len(got2)} bytes '
+                                                             f'that are neither the old ({len(old)}) nor the new ({len(new)}) object'}
+                        return
                 listed = list(backend.list_files(''))
                 stray = [n for n in listed if n not in holder['known_names']]
                 # (names ending in '.tmp' are never listed by Local: known finding C13-local-tmp-suffix-hidden, judged on the main path)
